@@ -565,7 +565,9 @@ class StreamReader:
         while chunk_splits and chunk_splits[0] < self._cursor:
             chunk_splits.popleft()
 
-        if self._size < self._low_water and (
+        # An empty buffer always resumes reading: with limit=0 the low-water
+        # mark is 0 and "size < low water" alone would never hold.
+        if (self._size < self._low_water or not self._buffer) and (
             self._http_chunk_splits is None
             or len(self._http_chunk_splits) < self._low_water_chunks
         ):
